@@ -190,7 +190,9 @@ func (c *Configuration) FileSource(filename string) (*ConfigurationSource, error
 		return nil, err
 	}
 
-	out, err := c.gitConfig("-l", "-f", filename)
+	// Includes are not honoured for these untrusted files (the option given
+	// last wins over the --includes that gitConfig always passes).
+	out, err := c.gitConfig("--no-includes", "-l", "-f", filename)
 	if err != nil {
 		return nil, err
 	}
@@ -198,7 +200,7 @@ func (c *Configuration) FileSource(filename string) (*ConfigurationSource, error
 }
 
 func (c *Configuration) RevisionSource(revision string) (*ConfigurationSource, error) {
-	out, err := c.gitConfig("-l", "--blob", revision)
+	out, err := c.gitConfig("--no-includes", "-l", "--blob", revision)
 	if err != nil {
 		return nil, err
 	}
